@@ -298,8 +298,6 @@ func (e *Env) RunBatch(root string, lines []string, spec *SchedSpec, disk *SimDi
 	if f := batchFaultHook; f != nil {
 		s.atDecision = func(n int, _ *Scheduler) { f(n) }
 	}
-	session := hermes.NewHermesSession()
-	session.HermesOutWriter = disk.Generator()
 	disk.OnOp = s.diskOp
 	disk.CurTask = func() string { return s.current }
 	hermes.Verif = &hermes.VerifHooks{Yield: s.Yield, PoolResult: s.PoolResult}
@@ -325,6 +323,11 @@ func (e *Env) RunBatch(root string, lines []string, spec *SchedSpec, disk *SimDi
 				}
 			}()
 			synctest.Test(theT, func(t *testing.T) {
+				// the session is created inside the bubble: a channel or timer it may own then belongs to the bubble, and a
+				// run that waits on it for ever counts as blocked (deadlock detection) instead of stalling quiescence
+				session := hermes.NewHermesSession()
+				session.HermesOutWriter = disk.Generator()
+				defer session.Close()
 				dispDone := false
 				var dmu sync.Mutex
 				go func() {
@@ -393,7 +396,6 @@ func (e *Env) RunBatch(root string, lines []string, spec *SchedSpec, disk *SimDi
 			})
 		}()
 	})
-	session.Close()
 	out.Decisions = s.decisions
 	sort.SliceStable(s.trace, func(i, j int) bool {
 		a, b := s.trace[i], s.trace[j]
